@@ -1,3 +1,16 @@
 // replay hooks for src/style.rs (child module: re-exports private entry points for /verif/replay)
 #![allow(unused_imports, dead_code, missing_docs)]
 use super::*;
+
+/// PaddedStringDisplay through core::fmt (align: 0 = left, 1 = center, 2 = right).
+pub fn padded(s: &str, width: usize, align: u8, truncate: bool) -> String {
+    let align = match align {
+        0 => Alignment::Left,
+        1 => Alignment::Center,
+        _ => Alignment::Right,
+    };
+    format!("{}", PaddedStringDisplay { str: s, width, align, truncate })
+}
+pub fn text_cols(s: &str) -> usize {
+    measure_text_width(s)
+}
